@@ -261,8 +261,7 @@ def run(ctx):
                         ctx.violation({"kind": "cli-indexed-set", "location": locs[-1], "missing": sorted(exp_cli - cli_files)[:4],
                                        "unexpected": sorted(cli_files - exp_cli)[:4]}, {"out": out[-800:]},
                                       files={k: v for k, v in files.items() if isinstance(v, str)})
-            if i < 2:
-                ctx.sample({"dirs": dirs, "excludes": excludes, "broken": broken, "expected_indexed": sorted(exp)[:20]})
+            ctx.sample({"dirs": dirs, "excludes": excludes, "broken": broken, "expected_indexed": sorted(exp)[:20]})
             ctx.count("trees")
             shutil.rmtree(base, ignore_errors=True)
     finally:
